@@ -1,7 +1,9 @@
 package checks
 
 import (
+	"fmt"
 	"sort"
+	"strings"
 	"sync"
 
 	"verif/internal/explore"
@@ -56,6 +58,7 @@ func runC09() int {
 	r := explore.New("C09")
 	st := &c09Stats{fired: map[string]int64{}}
 	texts := append(append([]wgen.Micro{}, wgen.Micros...), corpus()...)
+	texts = append(texts, c09TypeReuseMicros()...)
 	forEachProgram(r, quickFamilies(r), texts, func(p *prog) { c09Program(r, p, st) })
 	extraRule := ""
 	for _, f := range c09Extra {
@@ -74,4 +77,38 @@ func runC09() int {
 	printKeys(r)
 	return r.Finish("the module returned by LowerWithSource for every program of the shared valid-program families (F1, F2, F2L, F4c, F1lit and the contributed ones), the micro-programs and the 172 corpus shaders is checked by an independent strict IR validator (24 rules: handle ranges and backward references, no abstract types, type uniqueness, recorded type = independently inferred type, emit coverage/dominance, terminators, return paths and types, store/call/atomic typing, entry-point bindings, resource bindings, plus naga's own validator)"+extraRule+"; distinct = distinct canonical module hashes",
 		[]string{"the strict validator (internal/irx) is written against the property's statement and upstream naga's valid:: rules"})
+}
+
+// c09TypeReuseMicros: every composite type constructor of WGSL written twice (and three times) in one module, in
+// different positions (two globals, a global and a function parameter / local / alias): structurally equal
+// anonymous types must share one arena entry whatever the spelling site.
+func c09TypeReuseMicros() []wgen.Micro {
+	types := []string{"vec3<f32>", "mat2x3<f32>", "array<vec4<f32>, 4>", "array<array<u32, 2>, 3>", "atomic<u32>", "array<atomic<i32>, 2>",
+		"binding_array<texture_2d<f32>, 4>", "binding_array<sampler, 2>", "texture_2d<f32>", "texture_storage_2d<rgba8unorm, write>", "texture_depth_2d", "ptr<function, vec2<i32>>"}
+	var out []wgen.Micro
+	for i, t := range types {
+		var b strings.Builder
+		space := "var<private>"
+		bind := ""
+		switch {
+		case strings.HasPrefix(t, "binding_array"), strings.HasPrefix(t, "texture"), strings.HasPrefix(t, "sampler"):
+			space = "var"
+		case strings.Contains(t, "atomic"):
+			space = "var<workgroup>"
+		}
+		if strings.HasPrefix(t, "ptr") {
+			fmt.Fprintf(&b, "fn f1(p: %s) -> i32 { return (*p).x; }\nfn f2(q: %s) -> i32 { return (*q).y; }\n@compute @workgroup_size(1) fn main() { var v = vec2<i32>(1, 2); _ = f1(&v) + f2(&v); }\n", t, t)
+		} else {
+			for k := 0; k < 3; k++ {
+				if space == "var" {
+					bind = fmt.Sprintf("@group(0) @binding(%d) ", k)
+				}
+				fmt.Fprintf(&b, "%s%s g%d: %s;\n", bind, space, k, t)
+			}
+			fmt.Fprintf(&b, "alias A = %s;\n", t)
+			b.WriteString("@compute @workgroup_size(1) fn main() { }\n")
+		}
+		out = append(out, wgen.Micro{Name: fmt.Sprintf("c09/type-reuse/%d", i), Src: b.String()})
+	}
+	return out
 }
